@@ -40,7 +40,12 @@ func (b *Built) mkErr(who string, failKind bool, status int, reason string, hdr 
 	var err error
 	var o Origin
 	if failKind { // reject
-		opts := []ws.RejectOption{ws.RejectionStatus(status), ws.RejectionReason(reason)}
+		opts := []ws.RejectOption{ws.RejectionReason(reason)}
+		if status != 0 {
+			opts = append(opts, ws.RejectionStatus(status))
+		} else {
+			status = 500 // no chosen status: answered like an error without one
+		}
 		if len(hdr) > 0 {
 			if len(hdr)%2 == 1 {
 				opts = append(opts, ws.RejectionHeader(ws.HandshakeHeaderString(headerLines(hdr))))
